@@ -1,59 +1,81 @@
 (** * ForwardSpec: the trait impls of [Cc<T>] generated from src/cc.rs forward to [T]'s own
     implementation, on the dereferenced operands, in the same order.
 
-    Every lemma is closed by [reflexivity]: it holds exactly when the generated body IS the
-    forwarding term.  If cc.rs is edited so that e.g. [lt] uses [<=], [eq] swaps or duplicates an
-    operand, or [le] goes through [partial_cmp], the generated term changes and the lemma fails. *)
+    [T]'s operations are the projections of one record [Fw.T_ops] (an arbitrary, universally
+    quantified bundle [ops]); [deref] is [<Cc<T> as Deref>::deref].  Every lemma is closed by
+    [reflexivity]: it holds exactly when the generated body IS the forwarding term.  If cc.rs is
+    edited so that e.g. [lt] uses [<=] (the body becomes [T_le ops ..], a different projection),
+    [eq] swaps or duplicates an operand, or [le] goes through [partial_cmp], the generated term
+    changes and the lemma fails (or the translator fails closed). *)
 From RC.gen Require ForwardGen.
 Module Fw := ForwardGen.
 
 Section ForwardSpec.
-  Variables (T : Type) (Cc : Type) (deref : Cc -> T) (cc_new : T -> Cc).
-  Variables (T_eq : T -> T -> bool) (T_cmp : T -> T -> comparison)
-            (T_partial_cmp : T -> T -> option comparison) (T_lt T_le T_gt T_ge : T -> T -> bool).
-  Variables (H : Type) (T_hash : T -> H -> H).
-  Variables (Fm : Type) (R : Type) (T_debug_fmt T_display_fmt : T -> Fm -> R).
-  Variable (T_default : T).
+  Variables (T Cc H Fm R : Type) (deref : Cc -> T) (cc_new : T -> Cc) (ops : Fw.T_ops T H Fm R).
 
-  Theorem cc_eq_spec a b : Fw.cc_eq T Cc deref T_eq a b = T_eq (deref a) (deref b).
+  (* T's operations *)
+  Notation T_eq := (Fw.T_eq T H Fm R ops).
+  Notation T_cmp := (Fw.T_cmp T H Fm R ops).
+  Notation T_partial_cmp := (Fw.T_partial_cmp T H Fm R ops).
+  Notation T_lt := (Fw.T_lt T H Fm R ops).
+  Notation T_le := (Fw.T_le T H Fm R ops).
+  Notation T_gt := (Fw.T_gt T H Fm R ops).
+  Notation T_ge := (Fw.T_ge T H Fm R ops).
+  Notation T_hash := (Fw.T_hash T H Fm R ops).
+  Notation T_debug_fmt := (Fw.T_debug_fmt T H Fm R ops).
+  Notation T_display_fmt := (Fw.T_display_fmt T H Fm R ops).
+  Notation T_default := (Fw.T_default T H Fm R ops).
+  (* Cc<T>'s operations, generated from cc.rs *)
+  Notation cc_eq := (Fw.cc_eq T Cc H Fm R deref ops).
+  Notation cc_cmp := (Fw.cc_cmp T Cc H Fm R deref ops).
+  Notation cc_partial_cmp := (Fw.cc_partial_cmp T Cc H Fm R deref ops).
+  Notation cc_lt := (Fw.cc_lt T Cc H Fm R deref ops).
+  Notation cc_le := (Fw.cc_le T Cc H Fm R deref ops).
+  Notation cc_gt := (Fw.cc_gt T Cc H Fm R deref ops).
+  Notation cc_ge := (Fw.cc_ge T Cc H Fm R deref ops).
+  Notation cc_hash := (Fw.cc_hash T Cc H Fm R deref ops).
+  Notation cc_debug_fmt := (Fw.cc_debug_fmt T Cc H Fm R deref ops).
+  Notation cc_display_fmt := (Fw.cc_display_fmt T Cc H Fm R deref ops).
+  Notation cc_default := (Fw.cc_default T Cc H Fm R cc_new ops).
+  Notation cc_as_ref := (Fw.cc_as_ref T Cc deref).
+  Notation cc_borrow := (Fw.cc_borrow T Cc deref).
+
+  Theorem cc_eq_spec a b : cc_eq a b = T_eq (deref a) (deref b).
   Proof. reflexivity. Qed.
-  Theorem cc_cmp_spec a b : Fw.cc_cmp T Cc deref T_cmp a b = T_cmp (deref a) (deref b).
+  Theorem cc_cmp_spec a b : cc_cmp a b = T_cmp (deref a) (deref b).
   Proof. reflexivity. Qed.
-  Theorem cc_partial_cmp_spec a b :
-    Fw.cc_partial_cmp T Cc deref T_partial_cmp a b = T_partial_cmp (deref a) (deref b).
+  Theorem cc_partial_cmp_spec a b : cc_partial_cmp a b = T_partial_cmp (deref a) (deref b).
   Proof. reflexivity. Qed.
-  Theorem cc_lt_spec a b : Fw.cc_lt T Cc deref T_lt a b = T_lt (deref a) (deref b).
+  Theorem cc_lt_spec a b : cc_lt a b = T_lt (deref a) (deref b).
   Proof. reflexivity. Qed.
-  Theorem cc_le_spec a b : Fw.cc_le T Cc deref T_le a b = T_le (deref a) (deref b).
+  Theorem cc_le_spec a b : cc_le a b = T_le (deref a) (deref b).
   Proof. reflexivity. Qed.
-  Theorem cc_gt_spec a b : Fw.cc_gt T Cc deref T_gt a b = T_gt (deref a) (deref b).
+  Theorem cc_gt_spec a b : cc_gt a b = T_gt (deref a) (deref b).
   Proof. reflexivity. Qed.
-  Theorem cc_ge_spec a b : Fw.cc_ge T Cc deref T_ge a b = T_ge (deref a) (deref b).
+  Theorem cc_ge_spec a b : cc_ge a b = T_ge (deref a) (deref b).
   Proof. reflexivity. Qed.
-  Theorem cc_hash_spec a (st : H) : Fw.cc_hash T Cc deref H T_hash a st = T_hash (deref a) st.
+  Theorem cc_hash_spec a (st : H) : cc_hash a st = T_hash (deref a) st.
   Proof. reflexivity. Qed.
-  Theorem cc_debug_fmt_spec a (f : Fm) :
-    Fw.cc_debug_fmt T Cc deref Fm R T_debug_fmt a f = T_debug_fmt (deref a) f.
+  Theorem cc_debug_fmt_spec a (f : Fm) : cc_debug_fmt a f = T_debug_fmt (deref a) f.
   Proof. reflexivity. Qed.
-  Theorem cc_display_fmt_spec a (f : Fm) :
-    Fw.cc_display_fmt T Cc deref Fm R T_display_fmt a f = T_display_fmt (deref a) f.
+  Theorem cc_display_fmt_spec a (f : Fm) : cc_display_fmt a f = T_display_fmt (deref a) f.
   Proof. reflexivity. Qed.
-  Theorem cc_as_ref_spec a : Fw.cc_as_ref T Cc deref a = deref a.
+  Theorem cc_as_ref_spec a : cc_as_ref a = deref a.
   Proof. reflexivity. Qed.
-  Theorem cc_borrow_spec a : Fw.cc_borrow T Cc deref a = deref a.
+  Theorem cc_borrow_spec a : cc_borrow a = deref a.
   Proof. reflexivity. Qed.
-  Theorem cc_default_spec : Fw.cc_default T Cc cc_new T_default = cc_new T_default.
+  Theorem cc_default_spec : cc_default = cc_new T_default.
   Proof. reflexivity. Qed.
 
   (** [Borrow] requires Eq/Ord/Hash of the borrowed value to agree with those of the owner. *)
   Theorem cc_borrow_coherent a b (st : H) :
-    Fw.cc_eq T Cc deref T_eq a b = T_eq (Fw.cc_borrow T Cc deref a) (Fw.cc_borrow T Cc deref b) /\
-    Fw.cc_cmp T Cc deref T_cmp a b = T_cmp (Fw.cc_borrow T Cc deref a) (Fw.cc_borrow T Cc deref b) /\
-    Fw.cc_hash T Cc deref H T_hash a st = T_hash (Fw.cc_borrow T Cc deref a) st.
+    cc_eq a b = T_eq (cc_borrow a) (cc_borrow b) /\
+    cc_cmp a b = T_cmp (cc_borrow a) (cc_borrow b) /\
+    cc_hash a st = T_hash (cc_borrow a) st.
   Proof. repeat split; reflexivity. Qed.
 
   Hypothesis deref_new : forall t, deref (cc_new t) = t.
 
-  Theorem cc_default_deref : deref (Fw.cc_default T Cc cc_new T_default) = T_default.
+  Theorem cc_default_deref : deref cc_default = T_default.
   Proof. rewrite cc_default_spec. apply deref_new. Qed.
 End ForwardSpec.
